@@ -501,6 +501,72 @@ def rule_r5(rep, program: Program):
     return r
 
 
+def _object_state_writes(m):
+    """Stores into the object a method belongs to: attribute / item stores on self.<attr>, mutating container methods on
+    it, setattr(self, ...), and the same through a local alias `x = self.<attr>`.  -> [(node, attribute)]"""
+    aliases = {}
+    for n in ast.walk(m.node):
+        if isinstance(n, ast.Assign) and len(n.targets) == 1 and isinstance(n.targets[0], ast.Name) and is_self_attr(n.value):
+            aliases[n.targets[0].id] = n.value.attr
+        if isinstance(n, ast.NamedExpr) and is_self_attr(n.value):
+            aliases[n.target.id] = n.value.attr
+    stores = []
+
+    def owner(base):
+        if is_self_attr(base):
+            return base.attr
+        if isinstance(base, ast.Name) and base.id in aliases:
+            return aliases[base.id]
+        return None
+
+    for n in ast.walk(m.node):
+        tgts = n.targets if isinstance(n, ast.Assign) else [n.target] if isinstance(n, (ast.AugAssign, ast.AnnAssign)) else []
+        for t in tgts:
+            for tt in (t.elts if isinstance(t, ast.Tuple) else [t]):
+                base = tt
+                through_item = False
+                while isinstance(base, ast.Subscript):
+                    base = base.value
+                    through_item = True
+                if is_self_attr(base):
+                    stores.append((n, base.attr))
+                elif through_item and isinstance(base, ast.Name) and base.id in aliases:
+                    stores.append((n, aliases[base.id]))
+        if isinstance(n, ast.Call) and isinstance(n.func, ast.Attribute) and n.func.attr in ("append", "extend", "update", "add", "pop", "clear", "setdefault", "insert", "remove", "popitem", "discard") and owner(n.func.value) is not None:
+            stores.append((n, owner(n.func.value)))
+        if isinstance(n, ast.Call) and norm(n.func) == "setattr" and n.args and norm(n.args[0]) == "self":
+            stores.append((n, norm(n.args[1]) if len(n.args) > 1 else "?"))
+    return stores, aliases
+
+
+def rule_r7(rep, program: Program):
+    """A transition object is shared by every chain and stage sampled in a process (and copied into each worker).
+    Whatever a `sample` call leaves on it - a statistics dictionary re-used between calls, a flag, a counter - is seen by
+    the chains that happen to run after it in the same process, so outputs depend on which other chains run, where they
+    start, on n_process and on the assignment of chains to workers."""
+    r = rep.rule("R7", "transitions keep no per-call state: no method other than the constructor / property setters writes the transition object, and returned statistics are built per call", floor=6)
+    seen = set()
+    for k in program.subclasses("Transition", concrete_only=True):
+        for c in k.mro:
+            if c.name in ("object", "ABC"):
+                continue
+            for mname, m in c.methods.items():
+                if mname == "__init__" or m.is_setter or getattr(m, "is_property", False) or m.qualname in seen:
+                    continue
+                seen.add(m.qualname)
+                stores, aliases = _object_state_writes(m)
+                r.inst({"transition method": m.qualname, "stores on self": sorted({a for _, a in stores}), "aliases of attributes": sorted(aliases)})
+                for n, a in stores:
+                    r.violate(PROP, f"{m.qualname}:stores-on-transition:{a}", f"{m.qualname} writes `self.{a}` (`{norm(n)[:50]}`): the transition object is shared by all chains and stages sampled in a process, so what one chain's iteration leaves there (e.g. an error flag that is only ever set) shows up in the statistics of the chains that run after it in the same process - the output depends on n_process and on which other chains are run", node=n, file=m.file)
+                # a dictionary returned to the caller must not be an attribute of the transition
+                for rt in ast.walk(m.node):
+                    if isinstance(rt, ast.Return) and rt.value is not None:
+                        for e in (rt.value.elts if isinstance(rt.value, ast.Tuple) else [rt.value]):
+                            if is_self_attr(e) and e.attr.startswith("_") and "stat" in e.attr:
+                                r.violate(PROP, f"{m.qualname}:returns-attribute:{e.attr}", f"{m.qualname} returns the transition's own `self.{e.attr}`: every call hands out the same object", node=rt, file=m.file)
+    return r
+
+
 def _key_is_index(key) -> bool:
     if isinstance(key, ast.Lambda) and isinstance(key.body, ast.Subscript) and isinstance(key.body.slice, ast.Constant) and key.body.slice.value == 0:
         return True
@@ -613,6 +679,7 @@ def run(rep, program: Program, tier: str) -> None:
     samplersim.superseded(rep, program, tier, [("R3", "worker outputs are restored to chain-index order before collation; the index travels with arguments and results")], "R6", rule_r3, rep, program)
     samplersim.superseded(rep, program, tier, [("R4", "generator state advanced in worker copies is written back, complete and unmodified, to the parent's per-chain generators")], "R6", rule_r4, rep, program)
     rep.isolate(rule_r5, rep, program)
+    rep.isolate(rule_r7, rep, program)
     from . import samplersim
 
     rep.isolate(samplersim.rule, rep, program, tier, PROP, "R6")
